@@ -1022,12 +1022,19 @@ func runC20(r *mc.Report, e *Env) {
 	unit := 0
 	c20Select(r, e, &unit)
 	c20Radius(r, e, &unit)
+	c20Long(r, e, &unit)
 }
 
 func replayC20(r *mc.Report, e *Env, raw json.RawMessage) {
 	var c c20Case
 	if err := json.Unmarshal(raw, &c); err != nil {
 		panic(err)
+	}
+	if c.Kind == "long" {
+		var lc c20LongCase
+		json.Unmarshal(raw, &lc)
+		c20LongRun(r, lc)
+		return
 	}
 	if msg := inBubble(func() {
 		if c.Kind == "radius" {
